@@ -14,6 +14,8 @@ open Dashu.Props.C13
 #print axioms div_spec
 #print axioms different_rings
 #print axioms different_instances_same_modulus
+#print axioms single_word_division_contracts
+#print axioms double_word_division_contracts
 #print axioms reducer_ops
 #print axioms one_asIs_counterexample
 #print axioms reducer_add_asIs_counterexample
